@@ -156,6 +156,21 @@ func c16Small(c *Ctx) {
 			if an.IsNilConst(v) {
 				continue
 			}
+			// `return optionalString(&x.description)`: a helper of the package that is handed the field's address
+			if call, isCall := v.(*ssa.Call); isCall && call.Call.StaticCallee() != nil && call.Call.StaticCallee().Pkg == fn.Pkg {
+				okArg := false
+				for _, a := range call.Call.Args {
+					if f2, isF := an.Strip(a).(*ssa.FieldAddr); isF && strings.EqualFold(fieldNameOf(f2), "description") {
+						okArg = true
+					} else if f2, isF := loadAddr(an.Strip(a)).(*ssa.FieldAddr); isF && strings.EqualFold(fieldNameOf(f2), "description") {
+						okArg = true
+					}
+				}
+				if !okArg {
+					bad = "returns the result of a helper that is not given the description"
+				}
+				continue
+			}
 			fa, ok := v.(*ssa.FieldAddr)
 			if !ok {
 				if al, isAl := v.(*ssa.Alloc); isAl {
